@@ -11,9 +11,17 @@ import (
 
 // continuation of a statement list
 type cont struct {
-	fall func() string              // term when control reaches the end of the list
-	ret  func(vals []string) string // term for `return vals`
-	top  bool                       // a `return` here leaves the function (not inside a fold)
+	fall    func() string            // term when control reaches the end of the list
+	retTerm func(term string) string // term for `return <the function's full result tuple>`; nil: no return allowed here
+	cnt     func() string            // term for `continue` (innermost loop); nil outside loops
+	top     bool                     // a `return` here leaves the function (not inside a fold)
+}
+
+func (t *tr) doRet(n ast.Node, k cont, vals []string) string {
+	if k.retTerm == nil {
+		t.fail(n, "return in a position where the translation cannot express it")
+	}
+	return k.retTerm(t.retTuple(vals))
 }
 
 func indent(s string, n int) string {
@@ -231,6 +239,41 @@ func hasReturn(n ast.Node) bool {
 	return found
 }
 
+// hasWhile: an unbounded loop somewhere inside (its exhaustion is a return)
+func hasWhile(n ast.Node) bool {
+	found := false
+	ast.Inspect(n, func(m ast.Node) bool {
+		if f, ok := m.(*ast.ForStmt); ok && isWhile(f) {
+			found = true
+		}
+		return !found
+	})
+	return found
+}
+
+func isWhile(f *ast.ForStmt) bool { return f.Init == nil && f.Post == nil }
+
+// hasContinue: a `continue` that belongs to the loop whose body contains n (not to a nested loop)
+func hasContinue(n ast.Node) bool {
+	found := false
+	ast.Inspect(n, func(m ast.Node) bool {
+		switch x := m.(type) {
+		case *ast.ForStmt, *ast.RangeStmt:
+			if m != n {
+				return false
+			}
+		case *ast.BranchStmt:
+			if x.Tok == token.CONTINUE {
+				found = true
+			}
+		}
+		return !found
+	})
+	return found
+}
+
+func hasJump(n ast.Node) bool { return hasReturn(n) || hasContinue(n) || hasWhile(n) }
+
 // ---------------------------------------------------------------------------------------------------------
 
 func (t *tr) stmts(list []ast.Stmt, k cont) string {
@@ -253,8 +296,20 @@ func (t *tr) stmts(list []ast.Stmt, k cont) string {
 				vals = append(vals, t.retVal(r, i))
 			}
 		}
+		if t.f.nilRes {
+			if len(x.Results) == 1 && t.isNil(x.Results[0]) {
+				vals = []string{"none"}
+			} else {
+				vals = []string{"(some " + vals[0] + ")"}
+			}
+		}
 		pre := t.flush()
-		return pre + k.ret(vals)
+		return pre + t.doRet(x, k, vals)
+	case *ast.BranchStmt:
+		if x.Tok != token.CONTINUE || x.Label != nil || k.cnt == nil {
+			t.fail(x, "unsupported branch statement %s", x.Tok)
+		}
+		return t.flush() + k.cnt()
 	case *ast.BlockStmt:
 		return t.stmts(append(append([]ast.Stmt{}, x.List...), rest...), k)
 	case *ast.EmptyStmt:
@@ -269,6 +324,17 @@ func (t *tr) stmts(list []ast.Stmt, k cont) string {
 		t.assign(x)
 	case *ast.IncDecStmt:
 		one := "(1 : " + leanType(t.typeOf(x.X)) + ")"
+		if basicKind(t.typeOf(x.X)) == types.Uint64 {
+			fn := "I3.Go.u64add"
+			if x.Tok == token.DEC {
+				fn = "I3.Go.u64sub"
+			}
+			t.assignTo(x.X, "("+fn+" "+t.expr(x.X)+" "+one+")")
+			break
+		}
+		if leanType(t.typeOf(x.X)) != "Int" {
+			t.fail(x, "++/-- on %s", leanType(t.typeOf(x.X)))
+		}
 		op := " + "
 		if x.Tok == token.DEC {
 			op = " - "
@@ -501,7 +567,7 @@ func (t *tr) ifStmt(x *ast.IfStmt, rest []ast.Stmt, k cont) string {
 			elseList = []ast.Stmt{e}
 		}
 	}
-	if hasReturn(x.Body) || (x.Else != nil && hasReturn(x.Else)) {
+	if hasJump(x.Body) || (x.Else != nil && hasJump(x.Else)) {
 		// the rest of the enclosing list is the continuation of both branches
 		a := t.stmts(append(append([]ast.Stmt{}, x.Body.List...), rest...), k)
 		b := t.stmts(append(append([]ast.Stmt{}, elseList...), rest...), k)
@@ -520,7 +586,7 @@ func (t *tr) ifStmt(x *ast.IfStmt, rest []ast.Stmt, k cont) string {
 		return out + t.stmts(rest, k)
 	}
 	tup := t.tuple(vs)
-	kk := cont{fall: func() string { return tup }, ret: func([]string) string { panic(fail{"return in assign-only branch"}) }}
+	kk := cont{fall: func() string { return tup }}
 	a := t.stmts(x.Body.List, kk)
 	b := t.stmts(elseList, kk)
 	out += "let " + tup + " : " + t.tupleType(vs) + " := if " + cond + " then (\n" + indent(a, 1) + ")\nelse (\n" + indent(b, 1) + ")\n"
@@ -528,7 +594,7 @@ func (t *tr) ifStmt(x *ast.IfStmt, rest []ast.Stmt, k cont) string {
 }
 
 // loop with index variable iv over [lo, hi); `bind` are extra lets at the start of the body
-func (t *tr) loop(node ast.Node, iv string, lo, hi string, bind []string, body *ast.BlockStmt, rest []ast.Stmt, k cont, boundExprs []ast.Expr) string {
+func (t *tr) loop(node ast.Node, fn string, iv string, lo, hi string, bind []string, body *ast.BlockStmt, rest []ast.Stmt, k cont, boundExprs []ast.Expr) string {
 	ws := t.writesOf(body)
 	// the bound must be loop-invariant
 	for _, be := range boundExprs {
@@ -568,16 +634,24 @@ func (t *tr) loop(node ast.Node, iv string, lo, hi string, bind []string, body *
 	for _, b := range bind {
 		bindS += b + "\n"
 	}
-	kk := cont{fall: func() string { return tup }, ret: nil}
+	kk := cont{fall: func() string { return tup }, cnt: func() string { return tup }}
 	b := t.stmts(body.List, kk)
-	out += "let " + tup + " : " + tty + " := I3.Go.forRange (σ := " + tty + ") " + lo + " " + hi + " (fun " + iv + " " + tup + " =>\n" + indent(bindS+b, 2) + ") " + tup + "\n"
+	out += "let " + tup + " : " + tty + " := " + fn + " (σ := " + tty + ") " + lo + " " + hi + " (fun " + iv + " " + tup + " =>\n" + indent(bindS+b, 2) + ") " + tup + "\n"
 	return out + t.stmts(rest, k)
 }
 
 
 func (t *tr) loopGeneric(node ast.Node, iv string, lo, hi string, bind []string, body *ast.BlockStmt, rest []ast.Stmt, k cont, boundExprs []ast.Expr) string {
-	if !hasReturn(body) {
-		return t.loop(node, iv, lo, hi, bind, body, rest, k, boundExprs)
+	fn := t.loopFn
+	t.loopFn = ""
+	if fn == "" {
+		fn = "I3.Go.forRange"
+	}
+	if !hasReturn(body) && !hasWhile(body) {
+		return t.loop(node, fn, iv, lo, hi, bind, body, rest, k, boundExprs)
+	}
+	if fn != "I3.Go.forRange" {
+		t.fail(node, "return inside a downward or unsigned loop")
 	}
 	ws := t.writesOf(body)
 	for _, be := range boundExprs {
@@ -597,9 +671,11 @@ func (t *tr) loopGeneric(node ast.Node, iv string, lo, hi string, bind []string,
 	for _, b := range bind {
 		bindS += b + "\n"
 	}
+	noRet := func() string { return "((none : Option " + t.retTy + "), " + tup + ")" }
 	kk := cont{
-		fall: func() string { return "((none : Option " + t.retTy + "), " + tup + ")" },
-		ret:  func(vals []string) string { return "((some " + t.retTuple(vals) + " : Option " + t.retTy + "), " + tup + ")" },
+		fall:    noRet,
+		cnt:     noRet,
+		retTerm: func(term string) string { return "((some " + term + " : Option " + t.retTy + "), " + tup + ")" },
 	}
 	b := t.stmts(body.List, kk)
 	r := t.fresh("ret")
@@ -609,11 +685,74 @@ func (t *tr) loopGeneric(node ast.Node, iv string, lo, hi string, bind []string,
 	if !k.top {
 		t.fail(node, "return inside a loop nested in another loop or assign-only branch")
 	}
-	out += "match " + r + " with\n| some rv => rv\n| none => (\n" + indent(restS, 1) + ")"
+	out += "match " + r + " with\n| some rv => " + k.retTerm("rv") + "\n| none => (\n" + indent(restS, 1) + ")"
+	return out
+}
+
+// whileStmt: `for cond { body }` / `for { body }` with fuel; exhaustion returns (default, terminated = false)
+func (t *tr) whileStmt(x *ast.ForStmt, rest []ast.Stmt, k cont) string {
+	if !t.f.fuel {
+		t.fail(x, "internal: unbounded loop in a function not marked as fuelled")
+	}
+	if k.retTerm == nil {
+		t.fail(x, "unbounded loop in a position from which the function cannot return")
+	}
+	ws := t.writesOf(x.Body)
+	vs := t.sortedVars(ws.vars)
+	tup, tty := t.tuple(vs), t.tupleType(vs)
+	out := t.flush()
+	cond := "true"
+	if x.Cond != nil {
+		cond = t.expr(x.Cond)
+		if len(t.pre) > 0 {
+			t.fail(x, "loop condition with side effects")
+		}
+	}
+	noRet := func() string { return "((none : Option " + t.retTy + "), " + tup + ")" }
+	kk := cont{fall: noRet, cnt: noRet,
+		retTerm: func(term string) string { return "((some " + term + " : Option " + t.retTy + "), " + tup + ")" }}
+	b := t.stmts(x.Body.List, kk)
+	ex, r := t.fresh("exhausted"), t.fresh("ret")
+	out += fmt.Sprintf("let (%s, %s, %s) : Bool × (Option %s) × %s := I3.Go.whileFuel (ρ := %s) (σ := %s) %d (fun %s => %s) (fun %s =>\n%s) %s\n",
+		ex, r, tup, t.retTy, tty, t.retTy, tty, whileFuel, tup, cond, tup, indent(b, 2), tup)
+	restS := t.stmts(rest, k)
+	diverged := k.retTerm("(default, false)")
+	out += "if " + ex + " then (\n" + indent(diverged, 1) + ")\nelse match " + r + " with\n| some rv => " + k.retTerm("rv") + "\n| none => (\n" + indent(restS, 1) + ")"
 	return out
 }
 
 func (t *tr) forStmt(x *ast.ForStmt, rest []ast.Stmt, k cont) string {
+	if isWhile(x) {
+		return t.whileStmt(x, rest, k)
+	}
+	// for i := hi; i >= lo; i--
+	if post, ok := x.Post.(*ast.IncDecStmt); ok && post.Tok == token.DEC {
+		in, ok := x.Init.(*ast.AssignStmt)
+		if !ok || in.Tok != token.DEFINE || len(in.Lhs) != 1 {
+			t.fail(x, "unsupported loop form (init)")
+		}
+		iv := t.info.Defs[in.Lhs[0].(*ast.Ident)].(*types.Var)
+		cond, ok := x.Cond.(*ast.BinaryExpr)
+		if !ok || cond.Op != token.GEQ {
+			t.fail(x, "unsupported downward loop (condition)")
+		}
+		if id, ok := cond.X.(*ast.Ident); !ok || t.varOf(id) != iv {
+			t.fail(x, "unsupported downward loop (condition variable)")
+		}
+		if id, ok := post.X.(*ast.Ident); !ok || t.varOf(id) != iv {
+			t.fail(x, "unsupported downward loop (post variable)")
+		}
+		if ws := t.writesOf(x.Body); ws.vars[iv] {
+			t.fail(x, "loop variable assigned in the body")
+		}
+		if leanType(iv.Type()) != "Int" {
+			t.fail(x, "downward loop variable is not an int")
+		}
+		hi := t.expr(in.Rhs[0])
+		lo := t.expr(cond.Y)
+		t.loopFn = "I3.Go.forDown"
+		return t.loopGeneric(x, t.name(iv), hi, lo, nil, x.Body, rest, k, []ast.Expr{in.Rhs[0], cond.Y})
+	}
 	// for i := lo; i < hi; i++
 	in, ok := x.Init.(*ast.AssignStmt)
 	if !ok || in.Tok != token.DEFINE || len(in.Lhs) != 1 {
@@ -637,11 +776,15 @@ func (t *tr) forStmt(x *ast.ForStmt, rest []ast.Stmt, k cont) string {
 	if ws := t.writesOf(x.Body); ws.vars[iv] {
 		t.fail(x, "loop variable assigned in the body")
 	}
-	if leanType(iv.Type()) != "Int" {
-		t.fail(x, "loop variable is not an int")
-	}
 	lo := t.expr(in.Rhs[0])
 	hi := t.expr(cond.Y)
+	switch leanType(iv.Type()) {
+	case "Int":
+	case "Nat":
+		t.loopFn = "I3.Go.forRangeN"
+	default:
+		t.fail(x, "loop variable is neither int nor unsigned")
+	}
 	return t.loopGeneric(x, t.name(iv), lo, hi, nil, x.Body, rest, k, []ast.Expr{cond.Y})
 }
 
@@ -682,6 +825,15 @@ func (t *tr) retTuple(vals []string) string {
 		if m {
 			all = append(all, t.name(t.f.params[i]))
 		}
+	}
+	if t.f.fuel {
+		inner := "()"
+		if len(all) == 1 {
+			inner = all[0]
+		} else if len(all) > 1 {
+			inner = "(" + strings.Join(all, ", ") + ")"
+		}
+		return "(" + inner + ", true)"
 	}
 	if len(all) == 0 {
 		return "()"
